@@ -54,7 +54,7 @@ MANIFEST = dict(
          'written in sorted order do not depend on the iteration order of the set; the planar axis and both coordinates of a 2D viewport '
          'survive when the coordinates are not marker values; c06_property states all of it over arbitrary generated objects with the '
          'obligations as visible hypotheses. '
-         '227 instance obligations (315 obligations in total with theorems, correspondences, translators, ties) are regenerated '
+         '209 instance obligations (315 obligations in total with theorems, correspondences, translators, ties) are regenerated '
          'from vmf.py / math.py and kernel-checked on every run. The search builds maps through the public API (all object kinds, options '
          'minimal/disp_multiblend/preserve_ids, ID schemes from 0 / sparse / huge / repeated on the objects or in the parsed text, every '
          'tests/*.vmf) and checks text fixed point and field-by-field equality with the stated tolerances; every round trip runs under an alarm.',
